@@ -47,6 +47,21 @@ fn cases_list() -> Vec<Value> {
             }
         }
     }
+    // a call-free operand that can trap (integer division) in each leaf position, the other leaves
+    // being plain variables or probes: whether the trap fires is decided by short-circuiting alone
+    for f in FORMULAS {
+        for bits in 0..8 {
+            for trap_pos in 0..3 {
+                for others in ["vars", "probes"] {
+                    for z in [0, 1] {
+                        for pos in ["return", "if-cond"] {
+                            v.push(json!({"kind": "guard", "formula": f, "bits": bits, "trap_pos": trap_pos, "others": others, "z": z, "pos": pos}));
+                        }
+                    }
+                }
+            }
+        }
+    }
     for n in 0..=3 {
         for callee in ["fn", "closure", "returned-closure", "method-dot", "method-path", "generic"] {
             v.push(json!({"kind": "call", "n": n, "callee": callee}));
@@ -124,6 +139,36 @@ fn build(case: &Value) -> Option<(Program, String)> {
                 }
             }
             site = format!("truth={};pos={}", f, pos);
+        }
+        "guard" => {
+            let bits = case["bits"].as_u64().unwrap();
+            let f = case["formula"].as_str().unwrap();
+            let trap_pos = case["trap_pos"].as_u64().unwrap() as usize;
+            let others = case["others"].as_str().unwrap();
+            let pos = case["pos"].as_str().unwrap();
+            if trap_pos == 2 && !f.contains('c') {
+                return None;
+            }
+            let ps: Vec<VarId> = ["a", "b", "c"].iter().map(|x| n.fresh(x)).collect();
+            let z = n.fresh("z");
+            let leaf = |i: usize| -> E {
+                if i == trap_pos {
+                    // (100 / z > 3) == <bit i>: traps iff evaluated with z == 0
+                    bin(BinOp::Eq, bin(BinOp::Gt, bin(BinOp::Div, int(100), v(z)), int(3)), v(ps[i]))
+                } else if others == "vars" {
+                    v(ps[i])
+                } else {
+                    call("tB", vec![int(i as i128 + 1), v(ps[i])])
+                }
+            };
+            let e = formula(f, leaf(0), leaf(1), leaf(2));
+            let mut params: Vec<(VarId, Ty)> = ps.iter().map(|p| (*p, Ty::Bool)).collect();
+            params.push((z, Ty::i32()));
+            let gbody = if pos == "return" { block(vec![], Some(e)) } else { block(vec![], Some(if_(e, E::Bool(true), E::Bool(false)))) };
+            items.push(fn_def("guard", params, Some(Ty::Bool), gbody));
+            let args = vec![E::Bool(bits & 1 != 0), E::Bool(bits & 2 != 0), E::Bool(bits & 4 != 0), int(case["z"].as_i64().unwrap() as i128)];
+            body.push(st(T6::Bool.show(call("guard", args))));
+            site = format!("guard={};trap_pos={};others={};pos={}", f, trap_pos, others, pos);
         }
         "call" => {
             let nargs = case["n"].as_u64().unwrap() as usize;
@@ -288,7 +333,7 @@ impl Family for EvalOrder {
         &["C09", "C01", "C02", "C04"]
     }
     fn rule(&self) -> &'static str {
-        "effect probes in both operand positions of all 12 binary operators at int32/int8/string/bool; full truth tables (8 assignments) of 10 &&/||/! formulas in 5 positions (let, if condition, while condition, argument, return); calls with 0-3 probed arguments through 6 callee forms (fn, closure, effectful callee expression, method dot/path form with probed receiver, generic fn); struct literals in all 6 written field orders; while with 0-3 iterations and a probed condition; tuple/array/constructor elements. non-trivial = programs printing >= 2 probes; distinct = distinct source text"
+        "effect probes in both operand positions of all 12 binary operators at int32/int8/string/bool; full truth tables (8 assignments) of 10 &&/||/! formulas in 5 positions (let, if condition, while condition, argument, return); calls with 0-3 probed arguments through 6 callee forms (fn, closure, effectful callee expression, method dot/path form with probed receiver, generic fn); struct literals in all 6 written field orders; while with 0-3 iterations and a probed condition; tuple/array/constructor elements; guards: the same 10 formulas x 8 assignments with a call-free trapping operand (100 / z > 3, z in {0, 1}) in each leaf position, the other leaves plain variables or probes, as a function result or an if condition. non-trivial = programs printing >= 2 probes; distinct = distinct source text"
     }
     fn cases(&self, _tier: Tier) -> Box<dyn Iterator<Item = Value> + '_> {
         Box::new(cases_list().into_iter())
